@@ -849,7 +849,8 @@ func qualify(pkgPath, name string) string {
 	if strings.Contains(name, ".") {
 		return name
 	}
-	return pkgPath[strings.LastIndex(pkgPath, "/")+1:] + "." + name
+	// same convention as pkgShort: path below the module root with "/" replaced by "_"
+	return strings.ReplaceAll(strings.TrimPrefix(pkgPath, "perun.network/go-perun/"), "/", "_") + "." + name
 }
 
 // parseHead parses "name(a T, b U)".
